@@ -325,6 +325,11 @@ def valid_cids(draw, mode="defects", format_kinds=gen_fields.FORMATS):
     kinds = ["format"] + ["prop"] * (len(rows) - 1)
 
     names = draw(st.lists(_field_names(), min_size=1, max_size=6, unique=True))
+    if draw(st.integers(0, 2)) == 0:
+        # a one-letter name that also occurs inside numbers and words a count rule may contain (0xa, 1e1, and, True)
+        letter = draw(st.sampled_from("abcdefnrux"))
+        if letter not in [n.lower() for n in names]:
+            names[draw(st.integers(0, len(names) - 1))] = letter
     bad_examples = []
     expect_fields = []
     for name in names:
@@ -361,8 +366,10 @@ def valid_cids(draw, mode="defects", format_kinds=gen_fields.FORMATS):
             check_type = "IsUnique"
         else:
             blank = draw(st.sampled_from([" ", " ", ""]))
+            threshold = draw(st.sampled_from([str(draw(st.integers(0, 9))), "0xa", "0xBEEF", "0xdecaf", "1e1", "2e0", "(6)",
+                                              "2 + 3", "7 and True", "8 or False", "0b101", "1_0"]))
             rule = draw(st.sampled_from(names)) + blank + draw(st.sampled_from(["<", "<=", "==", "!=", ">=", ">"])) \
-                + blank + str(draw(st.integers(0, 9)))
+                + blank + threshold
             check_type = "DistinctCount"
         rows.append(["C", description, check_type, rule])
         kinds.append("check")
